@@ -20,7 +20,7 @@ VARIABLE l
 TraceInit == Init /\ l = 1
 
 Reset == /\ Rec[l].act.op = "reset"
-         /\ Rec[l].act.f \in {"exact", "rank"}
+         /\ Rec[l].act.f \in {"exact", "rank", "sci"}
          /\ vals' = {}
          /\ mode' = Rec[l].act.f
          /\ act' = Rec[l].act
@@ -37,6 +37,10 @@ Step == /\ Rec[l].act.op # "reset"
 RankStep == /\ DoRank(Rec[l].act, Rec[l].res)
             /\ vals' = Logged
 
+\* mode "sci", result not determined by the lattice arithmetic: class level
+SciLooseStep == /\ DoSciLoose(Rec[l].act, Rec[l].res)
+                /\ vals' = Logged
+
 KfId(a) == "KF_obj_" \o a.op \o "_" \o a.ca \o (IF a.cb = NoC THEN "" ELSE "_" \o a.cb)
 
 KFStep == LET a == Rec[l].act  r == Rec[l].res IN
@@ -45,10 +49,12 @@ KFStep == LET a == Rec[l].act  r == Rec[l].res IN
           /\ a.op \in {"add", "sub"} => a.b \in vals
           /\ SpecialOK(a.a, a.ca)
           /\ IF a.op = "neg" THEN a.cb = NoC ELSE SpecialOK(a.b, a.cb)
-          /\ mode = "exact" => (a.ca = CO(a.a) /\ a.cb = CO(a.b))
+          /\ mode \in ExactModes => (a.ca = CO(a.a) /\ a.cb = CO(a.b))
+          /\ mode = "sci" => (SciArg(a.a) /\ (a.b = NoVal \/ SciArg(a.b)))
           /\ r.k = "val" /\ r.c \in {"nan", "neginf"} /\ SpecialOK(r.v, r.c) /\ r.s = <<>>
           /\ r.c \in AbsOp(a.op, a.ca, a.cb)                 \* the raw IEEE result, nothing else
           /\ mode = "exact" => r.v = IEEE(a.op, a.a, a.b)
+          /\ mode = "sci" => r.v = SciOp(a.op, a.a, a.b)       \* also for operands of extreme magnitude
           /\ KfId(a) \in Known
           /\ PrintT(<<"KF", KfId(a)>>)
           /\ act' = a /\ res' = r
@@ -56,7 +62,7 @@ KFStep == LET a == Rec[l].act  r == Rec[l].res IN
           /\ vals = Logged
 
 TraceNext == /\ l <= Len(Rec)
-             /\ (Reset \/ Step \/ RankStep \/ KFStep)
+             /\ (Reset \/ Step \/ RankStep \/ SciLooseStep \/ KFStep)
              /\ l' = l + 1
 
 TraceSpec == TraceInit /\ [][TraceNext]_<<vars, l>>
